@@ -232,7 +232,10 @@ def v2q(v):
     :seealso: :func:`q2v`
     """
     v = base.getvector(v, 3)
-    s = math.sqrt(1 - np.sum(v**2))
+    d = 1 - np.sum(v**2)
+    if -100 * _eps < d < 0:
+        d = 0.0  # rounding noise for a half-turn rotation, scalar part is zero
+    s = math.sqrt(d)
     return np.r_[s, v]
 
 
